@@ -100,15 +100,25 @@ def run(prop, tier):
         r = tlc("ZyFormat.tla", cfg, cfg + ".out", workers=4, allow_violation=True)
         require(r["violated"] is not None, "%s is expected to be refuted on the anchoring design and was not" % what)
     # 2. spec -> code: every tree, three spellings, every option; a comment in every gap
-    cfg = "MC_ZyFormat_d2.cfg" if tier == "quick" else "MC_ZyFormat_d3.cfg"
-    tout = os.path.join(W, "trees.out")
-    r = lib.run_tlc("ZyFormat.tla", cfg, tout, workers=12, coverage=False, timeout=6000, xmx="16g")
-    states += r["distinct"]; transitions += r["generated"]
+    # quick: depth <= 2 with every pattern spelling at the root binder; thorough: that, plus depth <= 3 (root binder `x`)
     cases = os.path.join(W, "trees.cases.ndjson")
-    n = lib.extract_replay(tout, cases)
-    os.remove(tout)
+    n = 0
+    with open(cases, "w") as dest:
+        for cfg in (["MC_ZyFormat_d2.cfg"] if tier == "quick" else ["MC_ZyFormat_d2.cfg", "MC_ZyFormat_d3.cfg"]):
+            tout = os.path.join(W, "trees.out")
+            r = lib.run_tlc("ZyFormat.tla", cfg, tout, workers=12, coverage=False, timeout=6000, xmx="16g")
+            states += r["distinct"]; transitions += r["generated"]
+            part = os.path.join(W, "trees.part.ndjson")
+            k = lib.extract_replay(tout, part)
+            os.remove(tout)
+            log("[tlc] %s: %d trees" % (cfg, k))
+            for l in open(part):
+                if cfg.endswith("d3.cfg") and json.loads(l)["d"] < 3:
+                    continue        # already in the depth-2 set
+                dest.write(l)
+                n += 1
+            os.remove(part)
     require(n >= 40000, "too few trees: %d" % n)
-    log("[tlc] %s: %d trees" % (cfg, n))
     ttrace, tsum = os.path.join(W, "trees.trace.ndjson"), os.path.join(W, "trees.summary.json")
     lib.zyconf(["replay-format", cases, ttrace, tsum, tier], timeout=40000)
     ts = json.load(open(tsum))
